@@ -428,6 +428,9 @@ func (self *visitorUserNode) OnObjectBegin(capacity int) error {
 				return err
 			}
 		}
+		// the field is now represented by its frame: a globalFieldDesc still set at the close would make
+		// onValueEnd take an empty object for a basic value and leave the frame on the stack
+		self.globalFieldDesc = nil
 	}
 	return err
 }
@@ -581,6 +584,8 @@ func (self *visitorUserNode) OnArrayBegin(capacity int) error {
 		if err = self.push(false, false, true, self.globalFieldDesc, curNodeLenPos); err != nil {
 			return err
 		}
+		// see OnObjectBegin: elements find the descriptor in the frame (empty array case)
+		self.globalFieldDesc = nil
 	}
 	return err
 }
